@@ -394,9 +394,13 @@ class ScoredCollector(Collector):
             # matcher with a more efficient version
             if replace:
                 if replacecounter == 0 or self.minscore != minscore:
-                    self.matcher = matcher = matcher.replace(minscore or 0)
+                    # (With a final() hook the collected scores, and so the
+                    # threshold, are not on the scale of the matcher's
+                    # qualities: nothing may be pruned against it)
+                    threshold = 0 if self.final_fn else (minscore or 0)
+                    self.matcher = matcher = matcher.replace(threshold)
                     self.replaced_times += 1
-                    if minscore:
+                    if threshold:
                         self.pruned = True
                     if not matcher.is_active():
                         break
